@@ -417,8 +417,16 @@ SubprocessSet::WorkResult SubprocessSet::DoWork() {
       for (size_t i = 0; i < running_.size(); ++i) {
         Subprocess* s = running_[i];
         if (!s->use_console_) continue;
-        int died = g_cur.ch->Choose(3);   // 0: still alive when ninja looks, 1: gone without having written, 2: gone after writing part
+        // 0: still alive when ninja looks, 1: gone without having written, 2: gone after writing part,
+        // 3: it ended by itself, normally, in that very moment (a tool that handles the signal and exits with its work done)
+        int died = g_cur.ch->Choose(4);
         if (died <= 0) continue;
+        if (died == 3) {
+          Complete(this, i);
+          running_.erase(running_.begin() + i);
+          --i;
+          continue;
+        }
         RunCmd& rc = R.cmds[s->pid_];
         rc.killed = true;
         const CmdSpec& sp = rc.spec;
